@@ -98,6 +98,8 @@ def replay_all(repo, by_ob, scratch, log):
     if more is None and not fails:
         return {ob: None for ob in by_ob}
     fails = fails + (more or [])
+    more2 = alias_phase(binary, scratch, log)
+    fails = fails + (more2 or [])
     return {ob: fails for ob in by_ob}
 
 
@@ -151,6 +153,59 @@ def clause_phase(binary, scratch, log):
         log.append("clause-shaped replay did not run to the end: " + (p.stdout + p.stderr)[-300:])
         return None
     log.append("clause-shaped replay: %d clauses x %d operand pairs, %d mismatches (exit %s)" % (k, len(PAIRS), n, p.returncode))
+    return fails
+
+
+# ---- aliasing: a compiled instruction may forward an operand object (a big integer or rational in the arena) into its
+# target register; every later instruction must treat it as shared. Nested expressions over big operands are evaluated
+# twice through the compiled clause and once at run time; the operands must be unchanged afterwards.
+A_OUT = ["-", "+", "abs", "sign", "\\", "float", "truncate", "round", "ceiling", "floor", "float_integer_part", "float_fractional_part"]
+A_IN = ["+ Y", "max(Y, 0)", "max(0, Y)", "min(Y, Z)", "max(Y, Z)", "floor(Y)", "round(Y)", "truncate(Y)", "ceiling(Y)", "abs(Y)", "- Y", "Y",
+        "max(100000000000000000000, 1)", "min(-100000000000000000000, 1)", "+ (100000000000000000000)", "Y + 0", "Y * 1", "- (- Y)"]
+A_FORMS = ["%(o)s", "%(o)s + Y", "Y - %(o)s", "%(o)s + (%(i)s)"]
+A_PAIRS = [("2^70", "-(2^71)"), ("-(3^50)", "3^50"), ("1 rdiv 3", "-(2 rdiv 7)"), ("7", "-3"), ("2.5", "-0.5"), ("36028797018963968", "-36028797018963969")]
+
+
+def alias_phase(binary, scratch, log):
+    lines = [":- use_module(library(format)).", ":- use_module(library(lists)).", ":- use_module(library(between)).", ":- use_module(library(arithmetic)).",
+             "res(G, X, R) :- ( catch(G, error(E, _), R = err(E)) -> ( var(R) -> R = yes(X) ; true ) ; R = no ).",
+             "bad(K, W, P, A, B) :- format(\"MISMATCH ~d ~q ~q got=~q expected=~q~n\", [K, W, P, A, B])."]
+    exprs, tail = [], []
+    k = 0
+    for o in A_OUT:
+        for i in A_IN:
+            oi = "%s(%s)" % (o, i) if o != "\\" else "\\(%s)" % i
+            for f in A_FORMS:
+                e = f % {"o": oi, "i": i}
+                lines.append("a%d(Y, Z, X) :- X is %s." % (k, e))
+                tail.append("ab(%d, Y, Z, (%s), a%d(Y, Z, X), X)." % (k, e, k))
+                exprs.append(e)
+                k += 1
+    lines += tail
+    lines.append("pair(Ye, Ze) :- member(Ye-Ze, [%s])." % ", ".join("(%s)-(%s)" % p for p in A_PAIRS))
+    lines.append("main :- between(0, %d, K), pair(Ye, Ze), Y is Ye, Z is Ze, Yc is Ye, Zc is Ze, ab(K, Y, Z, T, G, X), "
+                 "res(G, X, C1), copy_term(G-X, G2-X2), G2 = G, res(G2, X2, C2), res(R is T, R, Rt), "
+                 "( C1 == Rt -> true ; bad(K, first_call, Ye-Ze, C1, Rt) ), ( C2 == Rt -> true ; bad(K, second_call, Ye-Ze, C2, Rt) ), "
+                 "( Y == Yc, Z == Zc -> true ; bad(K, operand_changed, Ye-Ze, Y-Z, Yc-Zc) ), fail." % (k - 1))
+    lines.append("main :- write('DONE'), nl, halt.")
+    lines.append(":- initialization(main).")
+    path = os.path.join(scratch, "replay_paths_alias.pl")
+    open(path, "w").write("\n".join(lines) + "\n")
+    p = subprocess.run([binary, "-f", "--no-add-history", path], capture_output=True, text=True, timeout=900, stdin=subprocess.DEVNULL)
+    fails, n = [], 0
+    for line in p.stdout.split("\n"):
+        m = re.match(r"MISMATCH (\d+) (\S+) (.*) got=(.*) expected=(.*)$", line)
+        if m:
+            n += 1
+            if len(fails) < 25:
+                fails.append({"goal": "p(Y, Z, X) :- X is %s.   %s with Y-Z = %s" % (exprs[int(m.group(1))], m.group(2), m.group(3)), "got": ["compiled", m.group(4)], "expected": ["runtime", m.group(5)], "op": exprs[int(m.group(1))], "a": None, "b": None})
+    if "DONE" not in p.stdout and not fails:
+        if p.returncode != 0 and "syntax_error" not in (p.stdout + p.stderr):
+            fails.append({"goal": "nested expressions over shared big operands (engine/replay_paths.py alias_phase)", "got": ["crash", (p.stderr or "")[-300:].strip()], "expected": ["v", "DONE"], "op": "alias", "a": None, "b": None})
+        else:
+            log.append("aliasing replay did not run to the end: " + (p.stdout + p.stderr)[-300:])
+            return None
+    log.append("aliasing replay: %d clauses x %d operand pairs, called twice, %d mismatches (exit %s)" % (k, len(A_PAIRS), n, p.returncode))
     return fails
 
 
